@@ -454,10 +454,11 @@ def evaluate__sum(self: XPathFunction, context: ta.ContextType = None) -> ta.One
     elif any(isinstance(x, float) and math.isnan(x) for x in values):
         return math.nan
     elif all(isinstance(x, Float) for x in values):
-        result = sum(values)
+        result = sum(values[1:], start=values[0])
     else:
         try:
-            result = sum(self.number_value(x) for x in values)
+            numbers = [self.number_value(x) for x in values]
+            result = sum(numbers[1:], start=numbers[0])  # 0 + -0.0 is 0.0
         except TypeError:
             if self.parser.version == '1.0':
                 return math.nan
